@@ -101,7 +101,7 @@ func (c *stackClass_[V]) MakeFromArray(values []V) StackLike[V] {
 	var list = List[V](c.notation_).MakeFromArray(values)
 	return &stack_[V]{
 		class_:    c,
-		capacity_: c.defaultCapacity_,
+		capacity_: c.capacityFor(list),
 		values_:   list,
 	}
 }
@@ -110,9 +110,23 @@ func (c *stackClass_[V]) MakeFromSequence(values Sequential[V]) StackLike[V] {
 	var list = List[V](c.notation_).MakeFromSequence(values)
 	return &stack_[V]{
 		class_:    c,
-		capacity_: c.defaultCapacity_,
+		capacity_: c.capacityFor(list),
 		values_:   list,
 	}
+}
+
+// Private
+
+// This private class method returns the capacity for a stack that initially
+// holds the specified values: the default capacity unless there are more values
+// than that.
+func (c *stackClass_[V]) capacityFor(values ListLike[V]) uint {
+	var capacity = c.defaultCapacity_
+	var size = uint(values.GetSize())
+	if size > capacity {
+		capacity = size
+	}
+	return capacity
 }
 
 // INSTANCE METHODS
